@@ -1045,8 +1045,22 @@ def _decorate_new_with_invariants(new_func: CallableT) -> CallableT:
         if type(instance).__init__ is object.__init__ and hasattr(
             type(instance), "__invariants__"
         ):
-            for invariant in instance.__class__.__invariants__:
-                _assert_invariant(contract=invariant, instance=instance)
+            # The invariants (or the ``__repr__`` of the instance in a violation message) may call public methods of
+            # the instance; these calls must not check the invariants once more.
+            #
+            # ``__new__`` may return an existing instance (*e.g.*, a singleton) whose method is still running;
+            # the mark belongs to that outer call then.
+            id_instance = id(instance)
+            outermost = not _is_in_progress(id_instance)
+            if outermost:
+                _mark_in_progress(id_instance)
+
+            try:
+                for invariant in instance.__class__.__invariants__:
+                    _assert_invariant(contract=invariant, instance=instance)
+            finally:
+                if outermost:
+                    _unmark_in_progress(id_instance)
 
         return instance
 
